@@ -195,7 +195,7 @@ func c03Exec(c c03Case, st *lab.Stats) *lab.Fail {
 		st.Inconclusive(err.Error())
 		return nil
 	}
-	defer cl.Close()
+	defer cl.Abort()
 	// expected outcome per request
 	want := make([]string, len(c.Reqs)) // route label, "default" or "refuse"
 	var buf []byte
@@ -244,7 +244,7 @@ func c03Exec(c c03Case, st *lab.Stats) *lab.Fail {
 	}
 	// closing our side ends the connection; OnClose comes after every handler of
 	// the connection returned, so the event log is complete afterwards.
-	cl.Close()
+	cl.Abort()
 	select {
 	case <-closed:
 	case <-time.After(10 * time.Second):
